@@ -260,6 +260,9 @@ def run_check(prop, harness_specs, tier, seed, explanation, level="other", budge
     units = []
     for m, c, h in hs:
         cases = list(h.cases(tier))
+        flt = os.environ.get("VERIF_CASE_FILTER")     # development aid only
+        if flt:
+            cases = [c_ for c_ in cases if flt in json.dumps(c_, sort_keys=True)]
         for i, case in enumerate(cases):
             units.append(("explore", m, c, case,
                           {"deadline": deadline, "profile": i == 0, "samples": 1 if i < 3 else 0}))
